@@ -291,6 +291,13 @@ def c16_scenarios(tier):
         p = peer_name(idset, idset[0])
         out.append(("share owners at %d" % idset[-1], [cluster_line(idset), hline("hprepare", idset[-1], p, acct, len(idset) // 2 + 1, idset),
                                                      "shareowners %d %s" % (idset[-1], hx(acct))]))
+    # what a participant SENDS: the lowest participant executes with every send failing in transit; every share handed to the
+    # transport (first attempts and whatever the process does about failures) must be the addressee's own
+    for idset in ([1, 2, 3], [1, 2, 3, 4, 5], [5, 6, 900, 70000]):
+        for rep_ in range(2):
+            k += 1
+            acct = "DW/sn%d" % k
+            out.append(("sent shares from %d (%d)" % (idset[0], rep_), [cluster_line(idset), "sendowners %d %s" % (idset[0], hx(acct))]))
     # share ownership for all ordered pairs asker < owner
     for idset in ([1, 2, 3], [5, 6, 900, 70000]):
         for owner in idset:
